@@ -186,3 +186,20 @@ def penalty_combinators(ctx):
     """coupler.and_/or_/not_: zero exactly where all / any member is zero, not_ negates by the resolved penalty type (shared with C15.e)"""
     from .c15 import combinators
     combinators(ctx)
+
+
+@rule('C17.e', min_instances=3)
+def combinators_keep_no_state_between_calls(ctx):
+    """and_/or_/not_ start every call from scratch: the function they return reads no one-shot iterator built in the factory, mutates no object of the factory's scope and declares nothing nonlocal (an iterator shared between calls makes a later call resume mid-cycle and report success at a point the other members still move)"""
+    for name in ('and_', 'or_', 'not_'):
+        outer = ctx.func('%s:%s' % (CN, name))
+        f = _inner(ctx, name)
+        found = state_between_calls(outer.node, f.node)
+        for kind, nm, node in found:
+            what = {'iterator': 'reads the one-shot iterator `%s` built once in %s' % (nm, name),
+                    'mutated': 'mutates `%s`, which belongs to the scope of %s and survives the call' % (nm, name),
+                    'nonlocal': 'declares `%s` nonlocal/global' % nm}[kind]
+            ctx.bad('%s#per-call-state[%s]' % (name, nm), 'the constraint returned by %s %s: calls are no longer independent of earlier calls' % (name, what), f,
+                    node if hasattr(node, 'lineno') else f.node)
+        if not found:
+            ctx.ok('%s#per-call-state' % name, 'no iterator, mutation or nonlocal of the factory scope inside the returned function', f, f.node)
